@@ -1586,7 +1586,20 @@ impl Stdfs {
     /// assert_vfs_remove_all!(vfs, &tmpdir);
     /// ```
     pub fn write<T: AsRef<Path>>(path: T) -> RvResult<Box<dyn Write>> {
-        Ok(Box::new(File::create(Stdfs::abs(path)?)?))
+        let path = Stdfs::abs(path)?;
+
+        // Validate the parent directory and the path itself, links are not files (link exclusion)
+        let dir = path.dir()?;
+        if !Stdfs::exists(&dir) {
+            return Err(PathError::does_not_exist(&dir).into());
+        } else if !Stdfs::is_dir(&dir) && !StdfsEntry::from(&dir)?.is_dir() {
+            return Err(PathError::is_not_dir(&dir).into());
+        }
+        if fs::symlink_metadata(&path).is_ok() && !Stdfs::is_file(&path) {
+            return Err(PathError::is_not_file(&path).into());
+        }
+
+        Ok(Box::new(File::create(path)?))
     }
 
     /// Write the given data to to the target file
